@@ -226,7 +226,7 @@ def check_interrupted_sweep(case):
 UNITS = [
     Unit("interrupted_sweep", check_interrupted_sweep, strategy=_interrupted_sweep_cases, quick=18, thorough=500, shards_quick=3,
          doc="every line event and every C-level call of one verify_delegation interrupted once on a fresh envelope, each followed by a normal retry of the same envelope"),
-    Unit("config", check_config, strategy=_config_cases, quick=24, thorough=400, shards_quick=8, shrink=False,
+    Unit("config", check_config, strategy=_config_cases, quick=96, thorough=600, shards_quick=16, shrink=False,
          doc="type binding in fresh interpreters: closed / ASCII stdout with non-ASCII role names, logging level, -O, warnings, environment variables"),
     Unit("type_binding", check_binding, strategy=_binding_cases, quick=800, thorough=30000,
          essential=["manip=0", "manip=1"],
